@@ -156,6 +156,16 @@ impl Check for ControllerExt {
     fn components(&self) -> serde_json::Value {
         serde_json::json!({"real": ["examples/timelock-controller (from source): schedule_op, execute_op, cancel_op, update_delay, roles", "timelock storage", "access_control"], "stub": ["Target (call counter, scripted trap)", "Wallet"]})
     }
+    fn property_of(&self, check: &str) -> std::vec::Vec<&'static str> {
+        // who may schedule / cancel / execute is C09's clause (the controller example's roles); the rest is C08
+        if check.starts_with("roles.") {
+            vec!["C09"]
+        } else if check == "fail.no_trace" || check.starts_with("live.") || check.starts_with("refine.") {
+            vec!["C08", "C09"]
+        } else {
+            vec!["C08"]
+        }
+    }
     fn clock_step(&self, n: u32) -> Option<Step> {
         Some(Step::Advance { n })
     }
@@ -300,7 +310,16 @@ impl Check for ControllerExt {
                 }
             }
             if got != exp {
+                // role / authorization reasons first (C09: scheduling needs the proposer, cancelling the canceller,
+                // executing - whenever executors are configured - the executor, each with that account's authorization)
+                let role_reason = match *s {
+                    Step::Schedule { by, signed, .. } | Step::Cancel { by, signed, .. } => !signed || by != 1,
+                    Step::Execute { by, signed, .. } => cfg.with_executors && (!signed || by != 2),
+                    Step::SetMinDelay { by, signed, .. } => !signed || by != 0,
+                    _ => false,
+                };
                 let check = match (kind, got) {
+                    (_, true) if role_reason => "roles.schedule_cancel_execute",
                     ("execute", true) => "exec.needs_ready_and_done_predecessor",
                     ("schedule", true) => "sched.min_delay_no_reschedule",
                     ("cancel", true) => "cancel.pending_only",
